@@ -373,8 +373,10 @@ Definition reroot_midpoint (t : utree) : res utree :=
       let e1 := mkE (elen ce - cut)%Q (esup ce) nilv [] in     (* newroot -- node1 *)
       let e2 := mkE cut (esup ce) nilv [] in                  (* newroot -- node2 *)
       (* the far end of the path is Left() of its branch when it lies on the way from the start
-         tip to Go's root (possible only when the far end is not a tip: zero-length branches
-         behind it); then node1/node2 are set once, the wrong way round, and never updated *)
+         tip to Go's root; then node1/node2 are set once, the wrong way round, and never updated.
+         Since MaxLengthPath always ends at a tip this cannot happen when the root has at least
+         two neighbours (Proofs/OutgroupMidDist.v: not_stale); the case is kept because the walk
+         of RerootMidPoint is written that way *)
       let stale := is_prefix pA (tv_root v) in
       let r :=
           if stale then
